@@ -151,6 +151,34 @@ def specHistory (np : Nat) : List Event → List (Event × Obs) → Nat → Nat 
     | some m => (n, some s!"event {n} ({repr ev}): {m}")
     | none => specHistory np (pre ++ [ev]) rest (n + 1)
 
+/-! ### vocabulary of the theorems (decidable, so that witnesses can be checked by evaluation) -/
+
+def Fut.isPending : Fut → Bool
+  | .pending _ => true
+  | _ => false
+
+/-- none of the awaitables of task `t` (of kind `k`) is still pending -/
+def settled (s : St) (t : Nat) (k : Kind) : Bool :=
+  (List.range k.nFuts).all fun i => !(s.futs (t, i)).isPending
+
+/-- no awaitable of any task is still pending -/
+def allSettled (s : St) : Bool :=
+  (List.range s.nTasks).all fun t =>
+    match s.tasks t with
+    | some x => settled s t x.kind
+    | none => true
+
+/-- the value `v` stored in `p` during `ev` comes from `p`'s most recent assignment: the plain
+value just assigned, or a completed result of the latest asynchronous assignment -/
+def fromLatest (s : St) (ev : Event) (p : Nat) (v : Int) : Bool :=
+  decide (ev = .assign p (.plain v)) ||
+  match s.last p with
+  | .task t =>
+    match s.tasks t with
+    | some x => (List.range x.kind.nFuts).any fun k => decide (s.futs (t, k) = .done v)
+    | none => false
+  | _ => false
+
 /-! ### hazards: where the code as written goes wrong -/
 
 def Pc.terminal : Pc → Bool
